@@ -538,11 +538,11 @@ def single_answer(R, rid, fn, must_call, what):
 ITEM_CONTENT_KINDS = ("Any", "Binary", "Deleted", "Doc", "JSON", "Embed", "Format", "String", "Type", "Move")
 
 
-def kinds_reaching(Y, fn, bb, enum="yrs::block::ItemContent", place_hint="content"):
+def kinds_reaching(Y, fn, bb, enum="yrs::block::ItemContent", place_hint="content", names=None):
     """the variants of `enum` under which block bb can execute: for every switch on the discriminant of a value of that enum
     that dominates bb, the variants whose edge reaches bb without passing through the switch again; intersected over the
     switches. Returns (set of variant names, number of switches used)."""
-    names = [v["name"] if isinstance(v, dict) else (v[1] if isinstance(v, (list, tuple)) else v) for v in Y.enums.get(enum, [])] or list(ITEM_CONTENT_KINDS)
+    names = names or [v["name"] if isinstance(v, dict) else (v[1] if isinstance(v, (list, tuple)) else v) for v in Y.enums.get(enum, [])] or list(ITEM_CONTENT_KINDS)
     allk = set(names)
     cfg = fn.cfg()
     by = {}
